@@ -441,6 +441,152 @@ fn multiline_faults_sweep() -> Sweep {
     )
 }
 
+// Definition-order diagnostics ("The definition of `X` references `Y` (directly or indirectly), which will
+// not be available in time"): groups of three definitions, each a literal, a function mentioning a subset
+// of the group or a computed expression mentioning a subset (the definition-order family of C13), in
+// three layouts (one line; one definition per line; non-ASCII names, comment lines between the
+// definitions, expressions broken after every `+`, after nine blank lines) and two placements (top
+// level; inside a called function). The offending text is the definition the message names: the
+// excerpt shows lines of the file as they are, and everything it marks lies inside the definition of X
+// (from its name to the end of its right-hand side) — not in another member, not in the body.
+fn order_faults_sweep(stride: u64) -> Sweep {
+    const K: usize = 3;
+    let per_def: u64 = 1 + 2 * (1 << K);
+    let total = per_def.pow(K as u32) * 3 * 2;
+    // (text, [definition name, byte range of the whole definition])
+    fn build(mut idx: u64) -> (String, Vec<(String, usize, usize)>) {
+        let per_def: u64 = 1 + 2 * (1 << K);
+        let layout = idx % 3;
+        idx /= 3;
+        let nested = idx % 2 == 1;
+        idx /= 2;
+        let name = |i: usize| if layout == 2 { format!("é{i}") } else { format!("d{i}") };
+        let plus = if layout == 2 { " +\n    " } else { " + " };
+        let mut text = String::new();
+        if layout == 2 {
+            text.push_str(&"\n".repeat(9));
+        }
+        if nested {
+            text.push_str(if layout == 0 { "f = (q => r => (" } else { "f = (q => r => (\n" });
+        }
+        let mut defs = vec![];
+        for i in 0..K {
+            let c = idx % per_def;
+            idx /= per_def;
+            let (kind, set) = if c == 0 { (0, 0) } else if c <= (1 << K) { (1, c - 1) } else { (2, c - 1 - (1 << K)) };
+            let mut expr = String::from("1");
+            for j in 0..K {
+                if set & (1 << j) != 0 {
+                    expr.push_str(plus);
+                    expr.push_str(&name(j));
+                }
+            }
+            let rhs = match kind {
+                0 => "1".to_owned(),
+                1 => format!("(p{i} => {expr})"),
+                _ => {
+                    if set == 0 { format!("1{plus}1") } else { expr }
+                }
+            };
+            let start = text.len();
+            text.push_str(&format!("{} = {rhs}", name(i)));
+            defs.push((name(i), start, text.len()));
+            text.push_str(match layout {
+                0 => "; ",
+                1 => "\n",
+                _ => "\n# é𝑥\n\n",
+            });
+        }
+        text.push_str(&name(0));
+        if nested {
+            text.push_str(if layout == 0 { ")); f 1 2" } else { "\n))\nf 1 2" });
+        }
+        (text, defs)
+    }
+    Sweep::new(
+        "definition-order diagnostics: the excerpt lies in the definition that the message names",
+        total.div_ceil(stride),
+        move |i| {
+            let (text, defs) = build(i * stride);
+            count!("evaluations");
+            bind::with_front(&text, &[], 2, |f| match f {
+                Front::Panic { message, .. } => violation("panic", &text, "diagnostics", &message),
+                Front::TokenizeErr(e) => crate::infra::machinery(&format!("order-family program does not tokenize: {text:?}: {:?}", bind::messages(&e))),
+                Front::ParseErr { errors, .. } => {
+                    let lines: Vec<&str> = text.split('\n').collect();
+                    let mut line_starts = vec![0usize];
+                    for l in &lines {
+                        line_starts.push(line_starts.last().unwrap() + l.len() + 1);
+                    }
+                    let mut seen = 0;
+                    for m in bind::messages(&errors) {
+                        let Some(rest) = m.split("The definition of `").nth(1) else { continue };
+                        if !m.contains("will not be available in time") {
+                            continue;
+                        }
+                        let x = rest.split('`').next().unwrap_or("");
+                        let Some((_, ds, de)) = defs.iter().find(|(n, _, _)| n == x) else {
+                            violation("order-diagnostic-names-no-definition", &text, "the message names a member of the group", &m);
+                            return;
+                        };
+                        let (_, listings) = split_message(&m);
+                        let Some(l) = listings.first() else {
+                            violation("order-diagnostic-without-excerpt", &text, "a source excerpt", &m);
+                            return;
+                        };
+                        let shown = match read_listing(l) {
+                            Ok(s) if !s.is_empty() => s,
+                            other => {
+                                violation("order-diagnostic-excerpt-unreadable", &text, "numbered lines with marks", &format!("{other:?} :: {l:?}"));
+                                return;
+                            }
+                        };
+                        let mut any = false;
+                        for sl in &shown {
+                            let Some(line) = lines.get(sl.number.wrapping_sub(1)) else {
+                                violation("order-diagnostic-marks-other-text", &text, "line numbers of the file", &format!("line {} :: {l:?}", sl.number));
+                                return;
+                            };
+                            if line.trim_end() != sl.content {
+                                violation("order-diagnostic-marks-other-text", &text, &format!("line {} shown as it is: {:?}", sl.number, line.trim_end()), &format!("{:?}", sl.content));
+                                return;
+                            }
+                            if sl.marked.0 == sl.marked.1 {
+                                continue;
+                            }
+                            any = true;
+                            let byte = |col: usize| line_starts[sl.number - 1] + line.char_indices().nth(col).map_or(line.len(), |(b, _)| b);
+                            let (ms, me) = (byte(sl.marked.0), byte(sl.marked.1));
+                            if ms < *ds || me > *de {
+                                violation(
+                                    "order-diagnostic-marks-other-text",
+                                    &text,
+                                    &format!("marks inside the definition of `{x}`, bytes {ds}..{de}: {:?}", &text[*ds..*de]),
+                                    &format!("line {} marks bytes {ms}..{me}: {:?} :: {}", sl.number, text.get(ms..me).unwrap_or("?"), m.lines().next().unwrap_or("")),
+                                );
+                                return;
+                            }
+                        }
+                        if !any {
+                            violation("order-diagnostic-marks-other-text", &text, "some marked text", &format!("{l:?}"));
+                            return;
+                        }
+                        seen += 1;
+                    }
+                    if seen > 0 {
+                        count!("order_diagnostics_ok", seen);
+                        count!("nontrivial");
+                    }
+                }
+                _ => {
+                    count!("order_family_accepted");
+                }
+            });
+        },
+        move |i| build(i * stride).0,
+    )
+}
+
 // (b) range bookkeeping: the source range of every node of the parse result denotes that node.
 fn visit<'a>(t: &crate::term::Term<'a>, depth: usize, f: &mut impl FnMut(&crate::term::Term<'a>, usize)) {
     use crate::term::Variant as V;
@@ -607,6 +753,7 @@ impl Prop for C15 {
             ranges_sweep("node ranges, class alphabet", class, 6, tier.pick(7, 8)),
             type_faults_sweep(tier),
             multiline_faults_sweep(),
+            order_faults_sweep(tier.pick(1, 1)),
         ];
         for (name, sg) in c07::slices(&g) {
             if name == "binders" || name == "let-groups" {
@@ -634,7 +781,7 @@ impl Prop for C15 {
             traces: None,
             exhaustive: true,
             bounds: json!({"listing_max_fragments": tier.pick(5, 6), "faults_full_alphabet_max_tokens": tier.pick(4, 5), "faults_class_alphabet_max_tokens": tier.pick(6, 7), "ranges_max_tokens": tier.pick(9, 12)}),
-            minimums: vec![("listings_ok", 100_000), ("unbound_ok", 10_000), ("rebound_ok", 1_000), ("stray_ok", 10_000), ("node_ranges_ok", 100_000)],
+            minimums: vec![("listings_ok", 100_000), ("unbound_ok", 10_000), ("rebound_ok", 1_000), ("stray_ok", 10_000), ("node_ranges_ok", 100_000), ("order_diagnostics_ok", 5_000)],
         }
     }
 }
